@@ -61,6 +61,10 @@ func (ex *Exec) intrinsic(fn *ssa.Function, args []Val, caller *frame) (Val, boo
 		return nil, true
 	}
 	name := fn.String()
+	switch name {
+	case "(*fmt.wrapError).Error", "(*fmt.wrapError).Unwrap":
+		return nil, false // plain Go, interpreted
+	}
 	if strings.HasPrefix(name, vPkg+".") {
 		return ex.vcall(name[len(vPkg)+1:], fn, args, caller), true
 	}
@@ -232,6 +236,18 @@ func (ex *Exec) intrinsic(fn *ssa.Function, args []Val, caller *frame) (Val, boo
 	case "strconv.Quote":
 		s, ok := args[0].(string)
 		if !ok {
+			if sb, isSym := args[0].(symstr); isSym && len(sb) == 1 {
+				// one symbolic byte: printable ASCII stays symbolic, anything else is concretised
+				c := sb[0]
+				tb := ex.tb
+				plain := tb.And(tb.And(tb.Bin(OpUle, tb.Const(0x20, 8), c.T), tb.Bin(OpUle, c.T, tb.Const(0x7e, 8))),
+					tb.And(tb.Not(tb.Eq(c.T, tb.Const('"', 8))), tb.Not(tb.Eq(c.T, tb.Const('\\', 8)))))
+				if ex.decide(ex.mkB(plain)) {
+					return symstr{mkInt(8, '"'), c, mkInt(8, '"')}, true
+				}
+				cv := ex.choose(c)
+				return strconv.Quote(string([]byte{byte(cv)})), true
+			}
 			ex.opaqueN++
 			return opaqueStr{fmt.Sprintf("quote%d", ex.opaqueN)}, true
 		}
